@@ -30,6 +30,11 @@ CHECKS["C11"] = {
     "level_note": "Trusts Go's regexp package (used by both sides) and the harness's own text-form and suffix model; entries restricted to what a domain file line can carry.",
     "technique": "property-based testing (rapid): model-based oracle + metamorphic relations",
     "parts": [
+        # the files of a set: C10's end-to-end test loads generated domain files (several per set, with and without a final
+        # newline, CRLF, comments) through the router's own loader; "the result does not depend on the files the entries came from"
+        {"engine": "E", "proxy": ["plain"], "tests": [
+            {"run": "TestVfC10Rules", "quick": 160, "thorough": 20000, "shards_quick": 8, "shards_thorough": 16, "timeout_thorough": 3400},
+        ]},
         {"engine": "P", "pkg": "internal/domain_matcher", "tests": [
             {"run": "TestVfC11Match", "quick": 20000, "thorough": 14117650, "timeout_thorough": 3000, "shards_quick": 4, "shards_thorough": 16,
              "timeout_thorough": 2400},
@@ -403,6 +408,7 @@ CHECKS["C19"] = {
         {"engine": "E", "proxy": ["plain"], "tests": [
             {"run": "TestVfC19Prefetch", "quick": 4, "thorough": 170, "shards_quick": 4, "shards_thorough": 8, "timeout_thorough": 3400, "shrinktime": "30s"},
             {"run": "TestVfC19StoreRace", "quick": 2, "thorough": 60, "shards_quick": 2, "shards_thorough": 8, "timeout_thorough": 3400, "shrinktime": "40s"},
+            {"run": "TestVfC19SlowRefresh", "quick": 2, "thorough": 48, "shards_quick": 2, "shards_thorough": 8, "timeout_thorough": 3400, "shrinktime": "60s"},
         ]},
         {"engine": "P", "pkg": "app/router", "tests": [
             {"run": "TestVfC19ReserveHammer", "quick": 24, "thorough": 36920, "timeout_thorough": 3000, "shards_quick": 4, "shards_thorough": 8, "shrinktime": "5s", "exclusive": True},
